@@ -50,7 +50,7 @@ type Check struct {
 	BudgetQuick, BudgetThorough time.Duration
 	// Workers overrides the number of worker processes (default: NumCPU).
 	Workers int
-	// CaseTimeout is the per-case watchdog (default 120 s; checks whose case is a whole probe batch use more).
+	// CaseTimeout is the per-case harness watchdog (default 45 min; exceeding it is an INTERNAL error, not a verdict).
 	CaseTimeout time.Duration
 	// ModelChecking extras copied into coverage when Level == model_checking.
 	MC bool
@@ -488,17 +488,24 @@ func runParent(env Env, ch *Check, only string) int {
 				pending--
 				continue
 			}
+			// three isolated re-runs, side by side
 			confirmed := 0
+			isoDone := make(chan bool, 3)
 			for k := 0; k < 3; k++ {
-				d := filepath.Join(env.Scratch, fmt.Sprintf("iso-%d-%d", j.shard, k))
-				os.RemoveAll(d)
-				os.MkdirAll(d, 0o755)
-				c := spawnWorker(env, ch, self, 0, 1, culprit, p.Shared, d, "")
-				c.Run()
-				if !c.ProcessState.Success() {
+				go func(k int) {
+					d := filepath.Join(env.Scratch, fmt.Sprintf("iso-%d-%d", j.shard, k))
+					os.RemoveAll(d)
+					os.MkdirAll(d, 0o755)
+					c := spawnWorker(env, ch, self, 0, 1, culprit, p.Shared, d, "")
+					c.Run()
+					isoDone <- !c.ProcessState.Success()
+					os.RemoveAll(d)
+				}(k)
+			}
+			for k := 0; k < 3; k++ {
+				if <-isoDone {
 					confirmed++
 				}
-				os.RemoveAll(d)
 			}
 			kind := "crash"
 			if hang {
